@@ -101,7 +101,8 @@ MUTANTS = [
     ("C11", "move-self-call", "typhon/files/fileset.py", "    @staticmethod\n    def _move_single_file(\n            file_info, fileset, destination, convert, copy):", "    def _move_single_file(self,\n            file_info, fileset, destination, convert, copy):"),
     ("C19", "tau-swapped", "typhon/retrieval/scores.py", "    return np.where(y_tau < y_test, abs_1, abs_2)", "    return np.where(y_tau < y_test, abs_2, abs_1)"),
     ("C19", "bias-parentheses", "typhon/retrieval/scores.py", "np.mean(100.0 * (y_pred - y_test) / y_test)", "np.mean(100.0 * y_test - y_pred / y_test)"),
-    ("C19", "mape-no-abs", "typhon/retrieval/scores.py", "100.0 * np.abs(y_test - y_pred.ravel())", "100.0 * (y_test - y_pred.ravel())"),
+    ("C19", "mape-no-abs", "typhon/retrieval/scores.py", "100.0 * np.abs(y_test.ravel() - y_pred.ravel())", "100.0 * (y_test.ravel() - y_pred.ravel())"),
+    ("C19", "mape-truth-not-flattened", "typhon/retrieval/scores.py", "100.0 * np.abs(y_test.ravel() - y_pred.ravel())", "100.0 * np.abs(y_test - y_pred.ravel())"),
     ("C19", "le-instead-of-lt", "typhon/retrieval/scores.py", "    abs_2 = (1.0 - taus) * np.abs(y_tau - y_test)", "    abs_2 = (1.0 - taus) * np.abs(y_tau - y_test) + (y_tau == y_test) * 1.0"),
     ("C19", "shape-error-swallowed", "typhon/retrieval/scores.py", "        raise ValueError(\n            \"Shape of y_test is incompatible with y_tau and taus.\")", "        y_test = y_test.ravel()[:n].reshape(n, 1)"),
     ("C19", "mean-over-wrong-axis", "typhon/retrieval/scores.py", "np.nanmean(quantile_score(y_tau, y_test, taus), axis=0)", "np.nanmean(quantile_score(y_tau, y_test, taus), axis=-1)"),
